@@ -441,14 +441,20 @@ func ruleSwitchOnce(p *Program, r *Reporter) {
 	if a == nil {
 		return
 	}
-	fn := a.compile
 	key := "compile/case *ast.SwitchExpression/the subject is translated once"
 	n := 0
 	bad := ""
-	for _, b := range fn.Blocks {
+	// wherever the translation of a switch sits: in the compiler's case or in a
+	// function of its own
+	var blocks []*ssa.BasicBlock
+	for _, f := range compilerFamily(p, a) {
+		blocks = append(blocks, f.Blocks...)
+	}
+	fn := a.compile
+	for _, b := range blocks {
 		for _, ins := range b.Instrs {
-			c, ok := staticCalleeIs(ins, fn)
-			if !ok || !strings.Contains(outerCase(p, fn, c.Pos()), "*ast.SwitchExpression") {
+			c, ok := staticCalleeIs(ins, a.compile)
+			if !ok || len(c.Call.Args) < 2 {
 				continue
 			}
 			// the argument is a non-slice field of the switch node itself
